@@ -6,56 +6,69 @@ import (
 	"github.com/kelindar/column"
 )
 
-// BulkInsert inserts n rows without values in one transaction (prologue filler). The commits are
-// summarised as one event; the rows are expected to occupy one contiguous range.
-func (c *Coll) BulkInsert(n int) (lo, hi uint32, err error) {
+// BulkInsert inserts n rows without values (prologue filler), one transaction per 16K block so that
+// every bulk commit is a single-block commit. Each transaction is summarised as one event; its rows
+// are expected to occupy one contiguous range.
+func (c *Coll) BulkInsert(n int) {
 	w := c.W
-	w.Bulk = true
-	first, last, count := uint32(0), uint32(0), 0
-	contiguous := true
-	c.C.Query(func(txn *column.Txn) error {
-		for i := 0; i < n; i++ {
-			o, _ := txn.Insert(func(r column.Row) error { return nil })
-			if count == 0 {
-				first = o
-			} else if o != last+1 {
-				contiguous = false
+	for n > 0 {
+		w.Bulk = true
+		first, last, count := uint32(0), uint32(0), 0
+		contiguous := true
+		c.C.Query(func(txn *column.Txn) error {
+			for n > 0 {
+				o, _ := txn.Insert(func(r column.Row) error { return nil })
+				if count == 0 {
+					first = o
+				} else if o != last+1 {
+					contiguous = false
+				}
+				last = o
+				count++
+				n--
+				if (o+1)%16384 == 0 {
+					break // the next row would start another block
+				}
 			}
-			last = o
-			count++
+			return nil
+		})
+		w.Bulk = false
+		ids := c.Log.TakeBulkIds()
+		if !contiguous || first/16384 != last/16384 {
+			w.T.Log(Ev{"e": "unsupported", "what": fmt.Sprintf("bulk insert did not yield a contiguous range in one block: %d..%d", first, last)})
+			return
 		}
-		return nil
-	})
-	w.Bulk = false
-	ids := c.Log.TakeBulkIds()
-	if !contiguous {
-		w.T.Log(Ev{"e": "unsupported", "what": "bulk insert did not yield a contiguous range"})
-		return first, last, fmt.Errorf("bulk insert not contiguous")
+		w.T.Log(Ev{"e": "bulkins", "c": c.Name, "lo": int(first), "hi": int(last), "ids": ids})
 	}
-	w.T.Log(Ev{"e": "bulkins", "c": c.Name, "lo": int(first), "hi": int(last), "ids": ids})
-	return first, last, nil
 }
 
-// BulkDelete deletes the filler rows lo..hi in one transaction.
+// BulkDelete deletes the filler rows lo..hi, one transaction per block.
 func (c *Coll) BulkDelete(lo, hi uint32) {
 	w := c.W
-	w.Bulk = true
-	missed := 0
-	c.C.Query(func(txn *column.Txn) error {
-		for o := lo; o <= hi; o++ {
-			if !txn.DeleteAt(o) {
-				missed++
-			}
+	for lo <= hi {
+		end := (lo/16384+1)*16384 - 1
+		if end > hi {
+			end = hi
 		}
-		return nil
-	})
-	w.Bulk = false
-	ids := c.Log.TakeBulkIds()
-	if missed > 0 {
-		w.T.Log(Ev{"e": "unsupported", "what": "bulk delete of rows that are not selected"})
-		return
+		w.Bulk = true
+		missed := 0
+		c.C.Query(func(txn *column.Txn) error {
+			for o := lo; o <= end; o++ {
+				if !txn.DeleteAt(o) {
+					missed++
+				}
+			}
+			return nil
+		})
+		w.Bulk = false
+		ids := c.Log.TakeBulkIds()
+		if missed > 0 {
+			w.T.Log(Ev{"e": "unsupported", "what": "bulk delete of rows that are not selected"})
+			return
+		}
+		w.T.Log(Ev{"e": "bulkdel", "c": c.Name, "lo": int(lo), "hi": int(end), "ids": ids})
+		lo = end + 1
 	}
-	w.T.Log(Ev{"e": "bulkdel", "c": c.Name, "lo": int(lo), "hi": int(hi), "ids": ids})
 }
 
 // ReplayTo replays on dst every commit of c's stream that has not been replayed yet, through the
